@@ -19,6 +19,7 @@ const char *mc_rule = "snapshot BFS: all (max,off,len) states x all op instances
                       "nontrivial = distinct (state,op) transitions whose pre- or post-state content wraps around the storage end";
 
 static const uint8_t JUNK = 0xEE;
+static const size_t HUGE = (size_t) 1 << 62;   // lengths no storage can hold: sums with the stored size or the alignment round-up wrap
 enum Op { PUSH, PUSH0, UNSHIFT, UNSHIFT0, POP, POPN, SHIFT, SHIFTN, CROP, SET, SET0, GET, GETN, FIND, ALIGN, RESIZE, PREPARE, STRING, EMPTY,
           XPUSH, XPOP, XPOPN, XUNSHIFT, XSHIFT, XSHIFTN, XWRITE, XREAD, XPEEK, XTRIM, NOPS };
 static const char *opn[] = { "qpush", "qpush(NULL)", "qunshift", "qunshift(NULL)", "qpop", "qpop(NULL)", "qshift", "qshift(NULL)", "queue_crop", "queue_set", "queue_set(NULL)",
@@ -96,17 +97,17 @@ static void step(Run &r, Counters &c, size_t max, size_t off, size_t len, int op
 		model_refuse = a > max - len;
 		int ret = LIB(mpt_qpush(&q, a, op == PUSH ? data : 0));
 		refused = ret < 0;
-		if (!refused) for (size_t i = 0; i < a; ++i) m.push_back(op == PUSH ? data[i] : 0);
+		if (!refused && !model_refuse) for (size_t i = 0; i < a; ++i) m.push_back(op == PUSH ? data[i] : 0);
 		break; }
 	case UNSHIFT: case UNSHIFT0: {
 		model_refuse = a > max - len;
 		int ret = LIB(mpt_qunshift(&q, a, op == UNSHIFT ? data : 0));
 		refused = ret < 0;
-		if (!refused) for (size_t i = a; i-- > 0;) m.push_front(op == UNSHIFT ? data[i] : 0);
+		if (!refused && !model_refuse) for (size_t i = a; i-- > 0;) m.push_front(op == UNSHIFT ? data[i] : 0);
 		break; }
 	case POP: case POPN: {
 		model_refuse = a > len;
-		uint8_t *exact = (uint8_t *) malloc(a ? a : 1);
+		uint8_t *exact = (uint8_t *) malloc(a && a <= 4096 ? a : 1);
 		void *ret = LIB(mpt_qpop(&q, a, op == POP ? exact : 0));
 		refused = !ret;
 		if (!refused && !model_refuse) {
@@ -117,7 +118,7 @@ static void step(Run &r, Counters &c, size_t max, size_t off, size_t len, int op
 		break; }
 	case SHIFT: case SHIFTN: {
 		model_refuse = a > len;
-		uint8_t *exact = (uint8_t *) malloc(a ? a : 1);
+		uint8_t *exact = (uint8_t *) malloc(a && a <= 4096 ? a : 1);
 		void *ret = LIB(mpt_qshift(&q, a, op == SHIFT ? exact : 0));
 		refused = !ret;
 		if (!refused && !model_refuse) {
@@ -143,8 +144,8 @@ static void step(Run &r, Counters &c, size_t max, size_t off, size_t len, int op
 	case GET: case GETN: {
 		model_refuse = b && (a > len || b > len - a);
 		argc = fmt("pos%s", a == 0 ? "=0" : (a < seglow ? "<headseg" : (a == seglow ? "=headseg" : (a > len ? ">stored" : ">headseg")))) + "," + lencls(b, len >= a ? len - a : 0, max - len, 0, 0);
-		uint8_t *exact = (uint8_t *) malloc(b ? b : 1);
-		memset(exact, 0x77, b ? b : 1);
+		uint8_t *exact = (uint8_t *) malloc(b && b <= 4096 ? b : 1);
+		memset(exact, 0x77, b && b <= 4096 ? b : 1);
 		int ret = LIB(mpt_queue_get(&q, a, b, op == GET ? exact : 0));
 		refused = ret < 0;
 		if (!refused && !model_refuse && op == GET && b) {
@@ -159,6 +160,7 @@ static void step(Run &r, Counters &c, size_t max, size_t off, size_t len, int op
 		void *ret = LIB(mpt_queue_find(&q, a, find_cmp, 0));
 		int e = errno;
 		long want = -1;
+		if (!a) { if (ret) fail("retval", "an element of size 0 was found"); refused = true; break; }
 		for (size_t i = 0; i + a <= len; i += a) if (m[i] == find_target) { want = (long) i; break; }
 		if (!ret) {
 			if (e == ENOTSUP || e == EAGAIN) refused = true;
@@ -194,8 +196,10 @@ static void step(Run &r, Counters &c, size_t max, size_t off, size_t len, int op
 		break; }
 	case PREPARE: {
 		argc = a <= max - len ? "n<=free" : "n>free";
+		model_refuse = a > HUGE;
 		size_t left = LIB(mpt_queue_prepare(&q, a));
 		if (!left && a) refused = true;
+		else if (model_refuse) {}
 		else if (left < a || left != q.max - q.len) fail("retval", fmt("returned %zu free bytes, capacity %zu, stored %zu", left, q.max, q.len));
 		break; }
 	case STRING: {
@@ -216,11 +220,11 @@ static void step(Run &r, Counters &c, size_t max, size_t off, size_t len, int op
 			else { memset(p, 0xDD, lo); if (hi) memset(q.base, 0xDD, hi); }   // must not touch content (ASan guards the outside)
 		}
 		break; }
-	case XPUSH: { bool ok = LIB(xq->push(data, a)); refused = !ok; if (ok) for (size_t i = 0; i < a; ++i) m.push_back(data[i]); q = xq->_d; break; }
-	case XUNSHIFT: { bool ok = LIB(xq->unshift(data, a)); refused = !ok; if (ok) for (size_t i = a; i-- > 0;) m.push_front(data[i]); q = xq->_d; break; }
+	case XPUSH: { model_refuse = a > HUGE; bool ok = LIB(xq->push(data, a)); refused = !ok; if (ok && !model_refuse) for (size_t i = 0; i < a; ++i) m.push_back(data[i]); q = xq->_d; break; }
+	case XUNSHIFT: { model_refuse = a > HUGE; bool ok = LIB(xq->unshift(data, a)); refused = !ok; if (ok && !model_refuse) for (size_t i = a; i-- > 0;) m.push_front(data[i]); q = xq->_d; break; }
 	case XPOP: case XPOPN: {
 		model_refuse = a > len;
-		uint8_t *exact = (uint8_t *) malloc(a ? a : 1);
+		uint8_t *exact = (uint8_t *) malloc(a && a <= 4096 ? a : 1);
 		bool ok = LIB(xq->pop(op == XPOP ? exact : 0, a)); refused = !ok;
 		if (ok && !model_refuse) {
 			if (op == XPOP && a && !asan_peek() && !std::equal(m.end() - a, m.end(), exact)) fail("retdata", "popped bytes differ from the deque's last bytes: " + hex(exact, a));
@@ -229,7 +233,7 @@ static void step(Run &r, Counters &c, size_t max, size_t off, size_t len, int op
 		free(exact); q = xq->_d; break; }
 	case XSHIFT: case XSHIFTN: {
 		model_refuse = a > len;
-		uint8_t *exact = (uint8_t *) malloc(a ? a : 1);
+		uint8_t *exact = (uint8_t *) malloc(a && a <= 4096 ? a : 1);
 		bool ok = LIB(xq->shift(op == XSHIFT ? exact : 0, a)); refused = !ok;
 		if (ok && !model_refuse) {
 			if (op == XSHIFT && a && !asan_peek() && !std::equal(m.begin(), m.begin() + a, exact)) fail("retdata", "shifted bytes differ from the deque's first bytes: " + hex(exact, a));
@@ -245,7 +249,7 @@ static void step(Run &r, Counters &c, size_t max, size_t off, size_t len, int op
 		else if (b == 0) { /* reserve only */ }
 		else for (size_t i = 0; i < (size_t) n * b; ++i) m.push_back(data[i]);
 		break; }
-	case XREAD: {    // a = element count, b = element size ; elements are taken from the tail (qpop)
+	case XREAD: {    // a = element count, b = element size ; a device read consumes at the front, where peek looks and write's bytes come out in order
 		argc = fmt("count=%zu,part=%zu,%s", a, b, a * b > len ? "total>stored" : "total<=stored");
 		uint8_t *exact = (uint8_t *) malloc(a * b ? a * b : 1);
 		ssize_t n = LIB(xq->read(a, exact, b));
@@ -254,8 +258,8 @@ static void step(Run &r, Counters &c, size_t max, size_t off, size_t len, int op
 		else {
 			if ((size_t) n * b > len) fail("retval", fmt("claims %zd elements of %zu bytes read from %zu stored bytes", n, b, len));
 			else for (ssize_t i = 0; i < n && !bad; ++i) {
-				if (!asan_peek() && !std::equal(m.end() - b, m.end(), exact + i * b)) fail("retdata", fmt("element %zd differs from the deque's tail", i));
-				for (size_t k = 0; k < b; ++k) m.pop_back();
+				if (!asan_peek() && !std::equal(m.begin(), m.begin() + b, exact + i * b)) fail("retdata", fmt("element %zd is {%s}, the next unread bytes (what peek shows) are {%s}", i, hex(exact + i * b, b).c_str(), hex(&*std::vector<uint8_t>(m.begin(), m.begin() + b).begin(), b).c_str()));
+				for (size_t k = 0; k < b; ++k) m.pop_front();
 			}
 		}
 		free(exact); break; }
@@ -328,6 +332,11 @@ static void instances(size_t max, size_t len, std::vector<Inst> &v)
 	for (int op : {CROP, SET, SET0, GET, GETN})
 		for (size_t a = 0; a <= top; ++a) for (size_t b = 0; b <= top; ++b) v.push_back(Inst{op, a, b});
 	for (size_t esz = 1; esz <= 3; ++esz) for (size_t t = 0; t <= len; ++t) v.push_back(Inst{FIND, esz, (size_t) (t ? label(t - 1) : 0)});
+	v.push_back(Inst{FIND, 0, 0});
+	// impossible lengths (the sum with the stored size, the free size or the alignment round-up wraps around)
+	for (int op : {PUSH, PUSH0, UNSHIFT, UNSHIFT0, POP, POPN, SHIFT, SHIFTN, XPUSH, XPOP, XPOPN, XUNSHIFT, XSHIFT, XSHIFTN, PREPARE})
+		for (size_t d = 0; d <= top + 8; ++d) v.push_back(Inst{op, SIZE_MAX - d, 0});
+	for (int op : {CROP, SET0, GETN}) for (size_t pos : {(size_t) 0, (size_t) 1, len, SIZE_MAX}) for (size_t d : {(size_t) 0, (size_t) 1, len, max}) v.push_back(Inst{op, pos, SIZE_MAX - d});
 	for (size_t a = 0; a <= top; ++a) v.push_back(Inst{ALIGN, a, 0});
 	for (size_t a = 0; a <= top + 8; ++a) v.push_back(Inst{RESIZE, a, 0});
 	v.push_back(Inst{STRING, 0, 0}); v.push_back(Inst{EMPTY, 0, 0});
